@@ -44,6 +44,16 @@ def main(argv):
         print('no rule module for %s: %s' % (pid, e))
         return 2
     ctx = Ctx(tier)
+    # a check never hangs: past the budget the run is reported as undecided (fail closed)
+    import signal
+
+    class Budget(Exception):
+        pass
+
+    def on_alarm(signum, frame):
+        raise Budget('analysis budget exceeded')
+    signal.signal(signal.SIGALRM, on_alarm)
+    signal.alarm(int(os.environ.get('VERIF_BUDGET_S', '600' if tier == 'quick' else '3000')))
     try:
         mod.run(chk, ctx)
     except core.FactsUnavailable as e:
@@ -73,6 +83,7 @@ def main(argv):
                     chk.ob('%s:selftest:silence:%s' % (pid, r['rewrite']), 'selftest', 'the behaviour-preserving rewrite "%s" raises no alarm' % r.get('description', r['rewrite']), True, '')
         except Exception as e:
             chk.notes.append('self-test aborted: %r' % (e,))
+    signal.alarm(0)
     level = getattr(mod, 'LEVEL', 'proof')
     return core.finish(chk, level=level, explanation=getattr(mod, 'EXPLANATION', None),
                        assumptions=getattr(mod, 'ASSUMPTIONS', None))
